@@ -142,6 +142,8 @@ def check_graph(run: CPRun) -> CaseInfo:
     classes = [f"type:{t}" for t in types]
     classes.append(f"annotation:{'all' if p['annotation'] == '' else 'step' if p['annotation'].startswith('Profiler') else 'user'}")
     classes.append("zero_weight_edges_on" if p["zero_weight_launch_edges"] else "zero_weight_edges_off")
+    if p.get("strict_negative_weight_check"):
+        classes.append("strict_negative_weight_check_on")
     if len(by_stream) >= 2:
         classes.append("multi_stream")
     if isinstance(p["instance"], list):
